@@ -674,6 +674,9 @@ mpeg2_ts_pkt_is_valid(const mpeg2_ts_hdr_t *ts_hdr, const size_t mpeg2_ts_pkt_si
 		buf_pos += (1 + af->len); /* Move pointer */
 	}
 	/* End of Transport stream packet headers. */
+	if (sizeof(mpeg2_psi_tbl_hdr_t) >
+	    (mpeg2_ts_pkt_size - (size_t)(buf_pos - (const uint8_t*)ts_hdr)))
+		return (1); /* No room for a table header: nothing more to check. */
 
 	/* PSI: Program specific information processing. */
 	switch (pid) {
